@@ -31,8 +31,17 @@ pub fn arg_for(ty: &Type, t: &mut Tape) -> ArgValue {
         }),
         Type::Bool => ArgValue::Bool(t.flag()),
         Type::Bytes => ArgValue::Bytes(crate::ggen::fixed_bytes(150, 28)),
-        Type::Address => ArgValue::Address(crate::ggen::shelley_address(0, 5, false)),
-        Type::UtxoRef => ArgValue::UtxoRef(UtxoRef { txid: vec![7; 32], index: 1 }),
+        // an argument closes its parameter in whatever representation it comes: the library's callers also hand an
+        // address over as plain bytes or as text, a reference as `txid#index` text
+        Type::Address => match t.weighted(&[6, 2, 1]) {
+            0 => ArgValue::Address(crate::ggen::shelley_address(0, 5, false)),
+            1 => ArgValue::Bytes(crate::ggen::shelley_address(0, 5, false)),
+            _ => ArgValue::String("addr_test1vqzs2ls7u4a9whl3xq3v9a5e0h8jvfe4xkz3pvhyqqqqqqqqqqq".into()),
+        },
+        Type::UtxoRef => match t.weighted(&[6, 1]) {
+            0 => ArgValue::UtxoRef(UtxoRef { txid: vec![7; 32], index: 1 }),
+            _ => ArgValue::String(format!("{}#1", hex::encode([7u8; 32]))),
+        },
         _ => ArgValue::Int(0),
     }
 }
@@ -216,6 +225,38 @@ pub fn check_program(tape: &[u16], rc: &mut RCase) -> Result<(), Failure> {
     let judged = judge(&tx, "lowered from generated program", Some(&plain), &mut t, rc, true)?;
     let rendered = || json!({"source": plain});
     judge_missing_arg(&tx, &mut t, rc, &rendered)?;
+    // the facade keeps the lowered templates and applies arguments to them in place: what one call supplied is
+    // still supplied after the next one (arguments in two complementary batches close the template)
+    if t.chance(1, 6) {
+        let params = find_params(&tx);
+        if params.len() >= 2 {
+            let all: Vec<(String, ArgValue)> = params.iter().map(|(k, ty)| (k.clone(), arg_for(ty, &mut t))).collect();
+            let cut = 1 + t.pick(all.len() - 1);
+            let first: BTreeMap<String, ArgValue> = all[..cut].iter().cloned().collect();
+            let second: BTreeMap<String, ArgValue> = all[cut..].iter().cloned().collect();
+            let outcome = guard(|| {
+                let mut ws = tx3_lang::Workspace::from_string(plain.clone());
+                ws.lower().map_err(|e| format!("{:?}", e))?;
+                ws.apply_args(&first).map_err(|e| format!("{:?}", e))?;
+                ws.apply_args(&second).map_err(|e| format!("{:?}", e))?;
+                Ok::<_, String>(ws.tir(&name).map(|x| find_params(x).keys().cloned().collect::<Vec<_>>()))
+            });
+            rc.label("workspace_arguments_in_two_batches");
+            match outcome {
+                Ok(Ok(Some(left))) if left.is_empty() => {}
+                Ok(Ok(Some(left))) => {
+                    return Err(Failure::new(
+                        "workspace_forgets_supplied_arguments",
+                        format!("Workspace::apply_args({:?}) then apply_args({:?}): the template still reports {:?}", first.keys().collect::<Vec<_>>(), second.keys().collect::<Vec<_>>(), left),
+                        rendered(),
+                    ))
+                }
+                Ok(Ok(None)) => return Err(Failure::new("workspace_lost_the_template", name.clone(), rendered())),
+                // refusals and panics of the facade on an accepted program are C13's subject
+                Ok(Err(_)) | Err(_) => rc.label("workspace:facade_failed(C13)"),
+            }
+        }
+    }
     let nonleaf = case.features.contains("parameter_in_index_position")
         || case.features.contains("withdrawal")
         || case.features.contains("donation")
